@@ -309,6 +309,14 @@ class Export(object):
                     + f"event count to {l_min} (max {l_max}) in '{l_min}'.",
                     LimitingExportSizeWarning)
 
+        # The event count of the source does not apply to the exported
+        # data (It is updated by the writer if there are any events).
+        if "experiment" in meta:
+            if filter_arr is None:
+                meta["experiment"]["event count"] = len(ds)
+            else:
+                meta["experiment"]["event count"] = int(np.sum(filter_arr))
+
         # Perform actual export
         with RTDCWriter(path,
                         mode="append",
